@@ -337,6 +337,7 @@ def run(program, ctx):
     from . import c10
 
     c10.rule_injective(program, ctx, prop=P, rid="C09.index")
+    c07.rule_kvregion(program, ctx, prop=P, rid="C09.kvregion")
     ctx.not_decided += [
         "arrival-order outcomes and equal timestamps as behaviour",
         "that an incoming event older than the stored newest version is itself not kept (both backends store it)",
